@@ -1,6 +1,9 @@
 import SkoolVerif.Prelude.Proto
 import SkoolVerif.Model.OpText
 import SkoolVerif.Model.AsmEval
+import SkoolVerif.Model.AsmInstr
+import SkoolVerif.Model.DisText
+import SkoolVerif.Gen.C02Tables
 open Proto OpText AsmEval
 
 /-! Line protocol for C02.  Text travels as space-separated code points. -/
@@ -120,6 +123,30 @@ def handle (line : String) : String :=
     | some t => match assembleData t with
       | some r => showR r
       | none => "nodir"
+    | none => "bad-op"
+  -- `Assembler._assemble(operation, address)`
+  | "asm" :: a :: rest => match a.toNat?, nats? rest with
+    | some a, some t => showR (AsmInstr.asmInstr t a)
+    | _, _ => "bad-op"
+  -- `Disassembler.disassemble(addr, addr + 1, base)[0]` on a snapshot holding `bytes` at `addr` (wrapping), 0 elsewhere
+  | "dis" :: h :: l :: opts :: wrap :: b1 :: b2 :: a :: rest =>
+    match cfg? h l, opts.toNat?, wrap.toNat?, base? b1, base? b2, a.toNat?, nats? rest with
+    | some c, some opts, some wrap, some b1, some b2, some a, some bytes =>
+      let mem : InstrDec.Mem := fun i => bytes.getD ((i + 65536 - a % 65536) % 65536) 0
+      match DisText.disText C02Gen.tables { opts := opts, lower := c.lower, wrap := wrap != 0 } c.hex b1 b2 mem a with
+      | .ok d => s!"ok {d.variant} {",".intercalate (d.bytes.map toString)} | {showNats d.text}"
+      | .error .key => "err key"
+      | .error .format => "err format"
+      | .error .type => "err type"
+    | _, _, _, _, _, _, _ => "bad-op"
+  -- the `@bytes` directive of a variant instruction: written, and read back by `parse_asm_bytes_directive`
+  | "bdir" :: h :: l :: rest => match cfg? h l, nats? rest with
+    | some c, some bs => okTxt (DisText.bytesDirective c bs)
+    | _, _ => "bad-op"
+  | "pbdir" :: rest => match nats? rest with
+    | some t => match AsmInstr.parseBytesDirective t with
+      | some vs => ("ok " ++ showInts vs).trimAscii.toString
+      | none => "ok"
     | none => "bad-op"
   | _ => "bad-op"
 
